@@ -159,19 +159,20 @@ CLAIMED["C18"] = dict(
 
 CLAIMED["C08"] = dict(
     text=("Models of is_enzymatic, non-specific, semi-specific and full digestion (window of start positions, methionine "
-          "handling) and a declarative cleavage rule spec_digest. Theorems: a site is exactly 'after a pre residue not followed "
-          "by a not_post residue, or before a post residue'; non-specific digestion = the rule for ALL sequences and windows; "
-          "FULL digestion = the rule for ALL non-empty sequences, enzymes, windows, budgets and methionine settings (loop invariant: "
-          "the open starts are the last mc+1 boundaries - with the initiator-methionine site all of them while at most mc+2 were seen "
-          "- plus counting of the sites between two boundaries); semi-specific (and, redundantly, full) digestion = the rule for every sequence of length 1..5 over the five residue classes the "
-          "algorithm can distinguish x 5 enzyme shapes x 5 windows x budgets 0..2 x methionine on/off (kernel-checked exhaustive "
-          "sweep, bound stated in the theorem; ~2.9 million digest/spec comparisons); the enzyme table is REGENERATED from "
-          "digest.py's AST on every run and proved well-formed. Correspondence: get_digested_peptides against the model (set "
-          "equality) AND the implementation's output against spec_digest evaluated in Coq (so a disagreement yields a concrete "
-          "failing sequence), on exhaustive small and random long sequences with every enzyme of the table."),
-    note=COMMON_NOTE + "Unbounded statement for SEMI-specific digestion is NOT proved (bounded sweep + correspondence). Sequences "
-         "non-empty, min_len >= 1. Translator for the enzyme table trusted (fail-closed, compared with the runtime dict). Axioms: none.",
-    technique="Coq proof (non-specific and full digestion, all inputs) + kernel-checked exhaustive sweep (semi-specific, stated bound) + in-Coq spec evaluation on the implementation's output",
+          "handling, the clamped residue pair at the last position) and a declarative cleavage rule spec_digest. Theorems: a site is "
+          "exactly 'after a pre residue not followed by a not_post residue, or before a post residue'; ALL THREE digestion modes yield "
+          "exactly the rule's peptide set for ALL non-empty sequences, enzymes, windows (min_len >= 1), missed-cleavage budgets and "
+          "methionine settings: non-specific by enumeration; full by the loop invariant 'the open starts are the last mc+1 boundaries' "
+          "(with the initiator-methionine site: all of them while at most mc+2 were seen) plus counting of the sites between two "
+          "boundaries; semi-specific by a position-by-position invariant (an admissible end admits every start from the first open one "
+          "on, an inadmissible end exactly the open starts), with the three methionine situations (site behind M also enzymatic / not / "
+          "single-residue protein). The enzyme table is REGENERATED from digest.py's AST on every run and proved well-formed. "
+          "Correspondence: get_digested_peptides against the model (set equality) AND the implementation's output against spec_digest "
+          "evaluated in Coq (so a disagreement yields a concrete failing sequence), on exhaustive small and random long sequences with "
+          "every enzyme of the table."),
+    note=COMMON_NOTE + "Sequences non-empty, min_len >= 1 (the empty sequence and min_len 0 are outside the theorems; the tool never "
+         "digests with min_len 0). Translator for the enzyme table trusted (fail-closed, compared with the runtime dict). Axioms: none.",
+    technique="Coq proof for all inputs (loop invariants for full and semi-specific digestion) + in-Coq spec evaluation on the implementation's output",
     design="5/C08")
 
 CLAIMED["C09"] = dict(
